@@ -46,6 +46,30 @@ Definition can_redirect (domains : list bs) (npatterns : nat) (re_matched : bool
            existsb (host_matches (hostname u)) domains
   end.
 
+(* The pattern loop of CanRedirectToURL as the code runs it: every configured pattern is handed to
+   regexp.MatchString (which compiles it) in configuration order until one matches; a pattern the
+   regexp library refuses to compile aborts the whole decision with an error (the caller answers 500 and
+   redirects nowhere).  The library's verdict per pattern on this URL is the input. *)
+Inductive pres := PMatch | PNoMatch | PErr.
+Fixpoint eval_patterns (l : list pres) : option bool :=
+  match l with
+  | [] => Some false
+  | PMatch :: _ => Some true
+  | PErr :: _ => None
+  | PNoMatch :: r => eval_patterns r
+  end.
+(* None = error (no redirect) *)
+Definition can_redirect_p (domains : list bs) (pats : list pres) (parse : option parsed) : option bool :=
+  if is_nil_l domains && Nat.eqb (length pats) 0 then Some false else
+  match eval_patterns pats with
+  | None => None
+  | Some re => Some (can_redirect domains (length pats) re parse)
+  end.
+(* a variant that skips patterns the library refuses (what "log and continue" would do) *)
+Fixpoint skip_errors (l : list pres) : list pres :=
+  match l with [] => [] | PErr :: r => skip_errors r | x :: r => x :: skip_errors r end.
+Definition can_redirect_p_skip (domains : list bs) (pats : list pres) (parse : option parsed) : option bool :=
+  can_redirect_p domains (skip_errors pats) parse.
 
 Definition cors_allowed (domains : list bs) (parse : option parsed) : bool :=
   match parse with
